@@ -119,6 +119,8 @@ spec fn dict_last(d: Seq<DictEntry>, t: Seq<char>, i: int) -> bool {
 }
 pub uninterp spec fn sub_str(t: Xsubstr) -> &'static str;
 impl Xsubstr { #[verifier::external_body] pub fn as_str(&self) -> (r: &str) ensures r == sub_str(*self) { unimplemented!() } }
+// `Xstr == str` (arcstr): equality of the texts
+#[verifier::external_body] fn xstr_eq_str(x: &Xstr, s: &str) -> (r: bool) ensures r == (xstr_text(*x) == name_text(s)) { unimplemented!() }
 // `substr == str` (arcstr): equality of the texts
 #[verifier::external_body] fn substr_eq_str(x: &Xsubstr, s: &str) -> (r: bool) ensures r == (name_text(sub_str(*x)) == name_text(s)) { unimplemented!() }
 pub type Xcell = Cell;
